@@ -496,9 +496,9 @@ class Sim(object):
         return self.ctx.violation
 
 
-def replay_ops(prop, ops, proxy=True, budget_scale=1):
+def replay_ops(prop, ops, proxy=True, budget_scale=1, seed=0):
     """Re-execute an explicit operation list (the replay artefact) with the oracles of `prop`."""
-    seams.begin_run(stream(0, "rngseam"))
+    seams.begin_run(stream(seed, "rngseam"))
     world = A.World(prop, proxy=proxy)
     stats = A.Stats()
     ctx = A.Ctx(prop, stats, budget_scale=budget_scale)
@@ -527,7 +527,8 @@ def run_one(prop, tier, seed, proxy=True):
 
 
 def replay(prop, trace):
-    violation, index, log, stats = replay_ops(prop, trace["ops"], proxy=trace.get("proxy", True))
+    violation, index, log, stats = replay_ops(prop, trace["ops"], proxy=trace.get("proxy", True),
+                                              seed=trace.get("seed", 0))
     return violation, index, log.digest()
 
 
